@@ -1,6 +1,6 @@
 (* Persist/Examples.v — concrete runs of the Persist model: a positive example (the shape of
-   tests/persistence.rs::partial_query) satisfying the hypotheses of the C26 theorems, and the
-   three refutation witnesses that were replayed on the real crate (checks/notes/C26.txt). *)
+   tests/persistence.rs::partial_query) satisfying the hypotheses of the C26 theorems, the former
+   stale-value witness (now from-scratch, fix e43c20c), and the two remaining refutation witnesses that were replayed on the real crate (checks/notes/C26.txt). *)
 From Salsa Require Import Base.
 From Salsa.Kern Require Import CoreK.
 From Salsa.Persist Require Import Model Spec ProofsRoundtrip ProofsFlatten.
@@ -83,23 +83,34 @@ Proof.
   - vm_compute. reflexivity.
 Qed.
 
-(* ---------------------------------------------------------------- F2: flattened untracked dependency *)
-(* plain(0) (persisted) = np(0), np(0) (not persisted) = external cell 0 *)
+(* ---------------------------------------------------------------- flattened untracked dependency *)
+(* plain(0) (persisted) = np(0), np(0) (not persisted) = external cell 0.  Before fix e43c20c the
+   last request returned the stale 0 (the restored memo had origin `derived`, no edges, and was
+   validated); now the memo is serialised as untracked and is re-executed in the new revision. *)
 Definition prog_f2 (q : qkey) : body :=
   if key_eqb q (0, 0) then CallQ (3, 0) Ret
   else if key_eqb q (3, 0) then RdCell 0 Ret
   else Ret 0.
 Definition ops_f2 := [OGet (0, 0); OSnapshot; ORestore; OSetCell 0 1; OSynth 0; OGet (0, 0)].
 
-Example ex_f2 :
+Example ex_f2_fixed :
   let r := run prog_f2 [] nolru ops_f2 in
-  snd r = [POk 0; POk 0; POk 0; POk 0; POk 0; POk 0] /\               (* the last request returns 0 *)
-  evalo prog_f2 FUEL (snap_of (ps_db (fst r))) (0, 0) = Some 1 /\    (* from scratch: 1 *)
-  d_log (ps_db (fst r)) = [EvValidate (0, 0); EvExec (3, 0); EvExec (0, 0)] /\
-  lost_untracked pfam (d_memo (ps_db (fst (run prog_f2 [] nolru [OGet (0, 0)])))) FUEL [EQ (3, 0)] = true.
+  snd r = [POk 0; POk 0; POk 0; POk 0; POk 0; POk 1] /\               (* the last request returns 1 *)
+  evalo prog_f2 FUEL (snap_of (ps_db (fst r))) (0, 0) = Some 1 /\    (* = from scratch *)
+  d_log (ps_db (fst r)) = [EvExec (3, 0); EvExec (0, 0); EvExec (3, 0); EvExec (0, 0)] /\
+  (* the serialised memo: no edges, untracked, because the expanded np(0) was untracked *)
+  lost_untracked pfam (d_memo (ps_db (fst (run prog_f2 [] nolru [OGet (0, 0)])))) FUEL [EQ (3, 0)] = true /\
+  option_map (fun m => (m_untracked m, m_edges m))
+    (d_memo (ps_db (fst (run prog_f2 [] nolru [OGet (0, 0); OSnapshot; ORestore]))) (0, 0)) = Some (true, []).
 Proof. vm_compute. repeat split. Qed.
 
-(* the same history without snapshot/restore is from-scratch *)
+(* in the revision of the snapshot the restored (untracked) memo is still returned without executing *)
+Example ex_f2_same_revision :
+  let r := run prog_f2 [] nolru [OGet (0, 0); OSnapshot; ORestore; OGet (0, 0)] in
+  snd r = [POk 0; POk 0; POk 0; POk 0] /\ d_log (ps_db (fst r)) = [EvExec (3, 0); EvExec (0, 0)].
+Proof. vm_compute. split; reflexivity. Qed.
+
+(* the same history without snapshot/restore *)
 Example ex_f2_twin :
   snd (run prog_f2 [] nolru [OGet (0, 0); OSetCell 0 1; OSynth 0; OGet (0, 0)]) = [POk 0; POk 0; POk 0; POk 1].
 Proof. vm_compute. reflexivity. Qed.
